@@ -808,16 +808,19 @@ pub fn async_ring_accounting(rounds: u64) -> LiveResult {
 /// C11: `clear()` while another thread still holds a `ValueRef` (a read guard on one shard of the
 /// store). Once `clear()` has returned — however long it had to wait for the reader — nothing inserted
 /// before it is retrievable and `len()` is 0. Sound for every timing: no insert follows the clear.
-pub fn clear_held_ref(rounds: u64) -> LiveResult {
+pub fn clear_held_ref(rounds: u64, prop: &str) -> LiveResult {
     mark_client();
     let mut violations = 0u64;
     let mut detail = String::new();
     for r in 0..rounds {
+        let cb = RecCallback::default();
+        // C08's part uses a validator that refuses every replacement: a value written over a survivor of the
+        // clear would be dropped without a callback
         let c = CacheBuilder::<u64, u64>::new(256, 1_000_000)
             .set_key_builder(SplitKeyBuilder)
             .set_coster(SlowCoster { micros: 0 })
-            .set_update_validator(TableValidator(0))
-            .set_callback(RecCallback::default())
+            .set_update_validator(TableValidator(if r % 2 == 1 || prop == "C08" { 1 } else { 0 }))
+            .set_callback(cb.clone())
             .set_hasher(SlowWorkerHasher { micros: 0 })
             .set_buffer_size(256)
             .set_buffer_items(64)
@@ -852,8 +855,25 @@ pub fn clear_held_ref(rounds: u64) -> LiveResult {
         let len = c.len();
         let seen: Vec<u64> = keys.iter().copied().filter(|k| c.get(&mk_key(*k, 0)).is_some()).collect();
         let _ = reader.join();
+        // C08: a value accepted after the clear has returned is resident or was handed to a callback
+        let v_new = 900_000 + r;
+        let ins = c.insert(mk_key(held, 0), v_new, 1);
+        let _ = c.wait();
+        let now_resident = c.get(&mk_key(held, 0)).map(|v| *v.value()) == Some(v_new);
+        let called_back = cb.0.lock().unwrap().iter().any(|e| match e {
+            crate::cache::CbEv::Exit(v) | crate::cache::CbEv::Evict(_, _, v, _) | crate::cache::CbEv::Reject(_, _, v, _) => *v == v_new,
+        });
         let _ = c.close();
-        if cleared && (len != 0 || !seen.is_empty()) {
+        if matches!(prop, "all" | "C08") && cleared && ins && !now_resident && !called_back {
+            violations += 1;
+            if detail.is_empty() {
+                detail = format!(
+                    "Cache round {}: another thread held the ValueRef of key {} while clear() ran and returned Ok; then insert({}, {}) = true, wait() = Ok: the value is neither resident nor was it handed to on_exit / on_evict / on_reject",
+                    r, held, held, v_new
+                );
+            }
+        }
+        if matches!(prop, "all" | "C11") && cleared && (len != 0 || !seen.is_empty()) {
             violations += 1;
             if detail.is_empty() {
                 detail = format!(
